@@ -1643,9 +1643,9 @@ def my_GetVolumeInformation(jitter, funcname, get_str, set_str):
         log.info('GetVolumeInformation %r', s)
 
 
-    if args.lpvolumenamebuffer:
+    if args.lpvolumenamebuffer and args.nvolumenamesize > 0:
         s = "volumename"
-        s = s[:args.nvolumenamesize]
+        s = s[:args.nvolumenamesize - 1]
         set_str(args.lpvolumenamebuffer, s)
 
     if args.lpvolumeserialnumber:
